@@ -156,3 +156,79 @@ VARIANTS += [
     V("c19-set-return", "C19", PAR, "    return cvsss\n", "    return list(set(cvsss))\n", rule="C19.hashorder"),
     V("c19-default-arg", "C19", C3, "def clean_vector(self, output_prefix=True):", "def clean_vector(self, output_prefix=True, _seen=[]):", rule="C19.globals"),
 ]
+
+VARIANTS += [
+    # ---------------------------------------------------------------- C08
+    V("c08-v4-order-e-first", "C08", K4, '        ("E", "Exploit Maturity"),\n        ("CR", "Confidentiality Req."),', '        ("CR", "Confidentiality Req."),\n        ("E", "Exploit Maturity"),', rule="C08.official"),
+    V("c08-v4-prefix-noslash", ["C08", "C07"], C4, 'prefix = "CVSS:4.0/"', 'prefix = "CVSS:4.0"', rule="C0"),
+    V("c08-v3-order-swap-N", "C08", K3, '        ("E", "Exploit Code Maturity"),\n        ("RL", "Remediation Level"),', '        ("RL", "Remediation Level"),\n        ("E", "Exploit Code Maturity"),', "silent"),
+    # ---------------------------------------------------------------- C09
+    V("c09-le-lt", "C09", C3, 'elif score <= D("8.9"):', 'elif score < D("8.9"):', rule="C09.scale"),
+    V("c09-v2-threshold", "C09", C2, 'elif score <= D("6.9"):', 'elif score <= D("7.0"):', rule="C09.scale"),
+    V("c09-unrounded", "C09", C3, 'self.base_score = round_up(min((self.isc + self.esc), D("10")))', 'self.base_score = min((self.isc + self.esc), D("10"))', rule="C09.quantised"),
+    V("c09-v4-drop-clamp", "C09", C4, "        value = min(10.0, value)\n", "", rule="C09.range"),
+    V("c09-temporal-sev-from-base", "C09", C3, "for score in (self.base_score, self.temporal_score, self.environmental_score):\n            if score == D(\"0.0\"):", "for score in (self.base_score, self.base_score, self.environmental_score):\n            if score == D(\"0.0\"):", rule="C09.agree"),
+    V("c09-v4-none-branch", "C09", C4, '        if self.base_score == 0.0:\n            self.severity = "None"\n        elif self.base_score <= 3.9:', '        if self.base_score < 0.0:\n            self.severity = "None"\n        elif self.base_score <= 3.9:', rule="C09.scale"),
+    V("c09-label", "C09", C2, 'severities.append("Medium")', 'severities.append("Moderate")', rule="C09.scale"),
+    V("c09-float-after-round", "C09", C3, "return float(self.base_score), float(self.temporal_score), float(self.environmental_score)", "return float(self.base_score) / 3 * 3, float(self.temporal_score), float(self.environmental_score)", rule="C09"),
+    # ---------------------------------------------------------------- C10
+    V("c10-v3-name", "C10", K3, '("N", "Network"), ("A", "Adjacent"), ("L", "Local"), ("P", "Physical")]),\n        ),\n        ("AC"', '("N", "Network"), ("A", "Adjacent Net"), ("L", "Local"), ("P", "Physical")]),\n        ),\n        ("AC"', rule="C10.validate"),
+    V("c10-score-str", "C10", C3, 'data["baseScore"] = float(self.base_score)', 'data["baseScore"] = str(self.base_score)', rule="C10"),
+    V("c10-drop-version", "C10", C2, '                ("version", "2.0"),\n', "", rule="C10.required"),
+    V("c10-v2-key", "C10", K2, '("Au", "authentication"),\n        ("C", "confidentialityImpact"),', '("Au", "authentification"),\n        ("C", "confidentialityImpact"),', "silent"),
+    V("c10-v3-severity-case", "C10", C3, 'data["baseSeverity"] = us(base_severity)', 'data["baseSeverity"] = base_severity', rule="C10.validate"),
+    V("c10-v4-version-back", "C10", C4, '("version", "4.0"),', '("version", "4"),', rule="C10.validate"),
+    # ---------------------------------------------------------------- C11
+    V("c11-swap-names", "C11", K3, '("MC", OrderedDict([("X", "Not Defined"), ("H", "High"), ("L", "Low"), ("N", "None")])),', '("MC", OrderedDict([("X", "Not Defined"), ("H", "Low"), ("L", "High"), ("N", "None")])),', rule="C11.metrics"),
+    V("c11-vectorstring-clean", "C11", C3, '("vectorString", self.vector),', '("vectorString", self.clean_vector()),', rule="C11.id"),
+    V("c11-sort-drops", "C11", C3, "data = OrderedDict(sorted(data.items()))", "data = OrderedDict(sorted((k, v) for k, v in data.items() if k != \"version\"))", rule="C11.sort"),
+    V("c11-v2-truthiness-back", "C11", C2, "if not minimal or self.temporal_score is not None:", "if not minimal or self.temporal_score:", rule="C11.minimal"),
+    V("c11-unfilled-map", "C11", C3, '    def get_value_description(self, abbreviation):\n        """\n        Gets textual description of specific metric specified by its abbreviation.\n        """\n        string_value = self.metrics.get(abbreviation, "X")', '    def get_value_description(self, abbreviation):\n        """\n        Gets textual description of specific metric specified by its abbreviation.\n        """\n        string_value = self.original_metrics.get(abbreviation, "X")', rule="C11.metrics"),
+    V("c11-slots-crossed", "C11", C3, 'data["temporalSeverity"] = us(temporal_severity)', 'data["temporalSeverity"] = us(base_severity)', rule="C11.scores"),
+    V("c11-v3-minimal-env-on-score", "C11", C3, "if not minimal or any(metric in self.original_metrics for metric in ENVIRONMENTAL_METRICS):", "if not minimal or self.environmental_score != self.base_score:", rule="C11.minimal"),
+    V("c11-json-key-dup", "C11", K3, '("MI", "modifiedIntegrityImpact"),', '("MI", "modifiedConfidentialityImpact"),', rule="C11.metrics"),
+    # ---------------------------------------------------------------- C13
+    V("c13-minlen-27", "C13", PAR, "[A-Za-z:/]{26,}", "[A-Za-z:/]{27,}", rule="C13.complete.minlen"),
+    V("c13-prefix-30-only", "C13", PAR, r"(?:CVSS:3\.\d/)?", r"(?:CVSS:3\.0/)?", rule="C13.complete.prefix"),
+    V("c13-class-upper", "C13", PAR, "[A-Za-z:/]{26,}", "[A-Z:/]{26,}", rule="C13.complete.alphabet"),
+    V("c13-capturing", "C13", PAR, r"(?:CVSS:3\.\d/)?", r"(CVSS:3\.\d/)?", rule="C13.sound.groups"),
+    V("c13-except-narrow", "C13", PAR, "except (CVSSError, KeyError):", "except KeyError:", rule="C13.total"),
+    V("c13-no-dedup", "C13", PAR, "            if cvss not in cvsss:\n                cvsss.append(cvss)", "            cvsss.append(cvss)", rule="C13.dedup"),
+    V("c13-strip-arg", "C13", PAR, "cvss = CVSS3(match)", "cvss = CVSS3(match.rstrip('/'))", rule="C13.sound.arg"),
+    V("c13-minlen-20-N", "C13", PAR, "[A-Za-z:/]{26,}", "[A-Za-z:/]{20,}", "silent"),
+    # ---------------------------------------------------------------- C14
+    V("c14-swap-pr", "C14", K3, '"PR": {"N": D("0.85"), "L": D("0.62"), "H": D("0.27")},', '"PR": {"N": D("0.85"), "L": D("0.27"), "H": D("0.62")},', rule="C14.weights"),
+    V("c14-lookup-inverted", "C14", K4, '("000010", 9.8),\n        ("000011", 9.5),', '("000010", 9.4),\n        ("000011", 9.5),', rule="C02.lookup.monotone"),
+    V("c14-v2-ac", "C14", K2, '"AC": {"H": D("0.35"), "M": D("0.61"), "L": D("0.71")},', '"AC": {"H": D("0.35"), "M": D("0.71"), "L": D("0.61")},', rule="C14.weights"),
+    V("c14-v4-level", "C14", C4, 'UI_levels = {"N": 0.0, "P": 0.1, "A": 0.2}', 'UI_levels = {"N": 0.0, "P": 0.2, "A": 0.1}', rule="C14.levels"),
+    # ---------------------------------------------------------------- C16
+    V("c16-prefix-30-as-31", "C16", INT, 'vector_string = "CVSS:3.0/" + "/".join(vector)', 'vector_string = "CVSS:3.1/" + "/".join(vector)', rule="C16.prefix"),
+    V("c16-no-upper", "C16", INT, "input_value = string_input().strip().upper()", "input_value = string_input().strip()", rule="C16.reach"),
+    V("c16-append-before-test", "C16", INT, "            if matching:\n                vector.append(metric + \":\" + matching[0])\n                break", "            vector.append(metric + \":\" + input_value)\n            if matching:\n                break", rule="C16"),
+    V("c16-empty-x-for-v2", "C16", INT, '                if version == 2:\n                    input_value = "ND"', '                if version == 3:\n                    input_value = "ND"', rule="C16.accept.empty"),
+    V("c16-tables-v4-as-v3", "C16", INT, "    elif version == 4.0:\n        print(\"Interactive CVSS4 calculator\")\n        from .constants4 import (", "    elif version == 4.0:\n        print(\"Interactive CVSS4 calculator\")\n        from .constants3 import (", rule="C16.tables"),
+    V("c16-always-mandatory", "C16", INT, "    if all_metrics:\n        metrics = METRICS_ABBREVIATIONS.keys()", "    if all_metrics and version != 2:\n        metrics = METRICS_ABBREVIATIONS.keys()", rule="C16.ask.selection"),
+    V("c16-back-to-old-accept", "C16", INT, '            matching = [value for value in values if value.upper() == input_value]\n            if matching:\n                vector.append(metric + ":" + matching[0])\n                break', '            if input_value in values:\n                vector.append(metric + ":" + input_value)\n                break', rule="C16.reach"),
+    V("c16-message-N", "C16", INT, 'print("Interactive CVSS2 calculator")', 'print("Interactive CVSS 2 calculator")', "silent"),
+    # ---------------------------------------------------------------- C17
+    V("c17-4-as-3", "C17", CLI, "            elif version == 4.0:\n                cvss_vector = CVSS4(vector_string)", "            elif version == 4.0:\n                cvss_vector = CVSS3(vector_string)", rule="C17.dispatch"),
+    V("c17-json-no-minimal", "C17", CLI, "as_json(sort=True, minimal=True)", "as_json(sort=True)", rule="C17.print.json"),
+    V("c17-except-narrow", "C17", CLI, "        except CVSSError as e:\n            print(e)", "        except CVSS3Error as e:\n            print(e)", rule="C17.contain"),
+    V("c17-eof-uncaught", "C17", CLI, "    except (KeyboardInterrupt, EOFError):", "    except KeyboardInterrupt:", rule="C17.contain.eof"),
+    V("c17-mapping-3", "C17", CLI, 'version_mapping = {"2": 2, "3": 3.0, "3.1": 3.1, "4": 4.0}', 'version_mapping = {"2": 2, "3": 3.1, "3.1": 3.1, "4": 4.0}', rule="C17.version"),
+    V("c17-score-slot", "C17", CLI, 'score = scores[i], "({0})".format(severities[i])', 'score = scores[i], "({0})".format(severities[0])', rule="C17.print.slots"),
+    V("c17-order-flags", "C17", CLI, 'for key in ("2", "3", "4") if getattr(args, key)', 'for key in ("json", "2", "3", "4") if getattr(args, key)', rule="C17.version"),
+    V("c17-pad-N", "C17", CLI, "PAD = 24", "PAD = 26", "silent"),
+    # ---------------------------------------------------------------- C20
+    V("c20-fstring", "C20", C3, "raise CVSS3MalformedError('Duplicate metric \"{0}\"'.format(metric))", "raise CVSS3MalformedError(f'Duplicate metric \"{metric}\"')", rule="C20.syntax"),
+    V("c20-walrus", "C20", C2, "        missing = []\n        for mandatory_metric in METRICS_MANDATORY:", "        missing = []\n        if (n_ := len(METRICS_MANDATORY)) < 0:\n            pass\n        for mandatory_metric in METRICS_MANDATORY:", rule="C20.syntax"),
+    V("c20-removeprefix", "C20", C3, 'fields = self.vector.split("/")[1:]', 'fields = self.vector.removeprefix("CVSS:3.0/").removeprefix("CVSS:3.1/").split("/")', rule="C20.names"),
+    V("c20-round", "C20", C4, "        value = max(0.0, value)\n", "        value = max(0.0, round(value, 10))\n", rule="C20.division"),
+    V("c20-int-div", "C20", C4, "        step = 0.1\n", "        step = 1 / 10\n", rule="C20.division"),
+    V("c20-class-no-object", "C20", C2, "class CVSS2(object):", "class CVSS2:", rule="C20.syntax"),
+    V("c20-plain-dict-json", "C20", C4, '        data = OrderedDict(\n            [\n                ("version", "4.0"),\n                ("vectorString", self.vector),\n            ]\n        )', '        data = {"version": "4.0", "vectorString": self.vector}', rule="C20.order"),
+    V("c20-unicode-literals", "C20", C3, "from __future__ import unicode_literals\n\nimport copy", "import copy", rule="C20.future"),
+    V("c20-kwonly", "C20", C3, "def clean_vector(self, output_prefix=True):", "def clean_vector(self, *, output_prefix=True):", rule="C20.syntax"),
+    V("c20-iterate-plain-values", "C20", C3, "        for metric in METRICS_ABBREVIATIONS:\n            if metric in self.original_metrics:", "        for metric in METRICS_VALUES:\n            if metric in self.original_metrics:", rule="C20.order"),
+    V("c20-annotations", "C20", C2, "def round_to_1_decimal(value):", "def round_to_1_decimal(value: D) -> D:", rule="C20.syntax"),
+]
